@@ -39,11 +39,11 @@ type InstResult struct {
 	Spurious int
 	Replays  int
 	// confirmed counterexamples
-	Violations []Finding
-	KnownHits  []Finding
-	CoverSat   map[string]map[string]interface{}
-	CoverAll   map[string]bool
-	Unknowns   []string
+	Violations  []Finding
+	KnownHits   []Finding
+	CoverSat    map[string]map[string]interface{}
+	CoverAll    map[string]bool
+	Unknowns    []string
 	Unconfirmed []string
 }
 
@@ -549,7 +549,7 @@ func report(prop, tier string, seed int64, hs []Harness, results []*InstResult, 
 	var samples []interface{}
 	tot := struct {
 		Queries, Distinct, States, Merges, Blocks, Instrs, Terms, Oblig, Discharged, Replays, Spurious int
-		SolverMs, ExecMs                                                                                 int64
+		SolverMs, ExecMs                                                                               int64
 	}{}
 	fns := map[string]int{}
 	stubs := map[string]int{}
